@@ -107,6 +107,12 @@ def c01_curated():
         rule(H("t3", V("s"), y), For(PRef(PV("s")), ArrIter([0, 2])), Cl("foo", V("s"), y), Cl("src", y)),
         rule(H("t4", k, y), Cl("o", V("ov")), IfLet(PRef(PC("Some", PV("k"))), V("ov")), Cl("foo", k, y), Cl("bar", y, _)),
         rule(H("foo", y, x), Cl("t3", x, y), Cl("bar", x, _))]))
+    # a recursive multi-head rule with a write-only side head, re-derived by a later stratum
+    P.append(Program("multihead_side", [R("edge", I, I), R("bridge", I, I), R("path", I, I), R("zseen", I), R("aseen", I), R("shortcut", I, I)], [
+        rule(H("path", x, y), Cl("edge", x, y)),
+        rule([H("path", x, z_), H("zseen", z_), H("aseen", x), H("shortcut", x, z_)], Cl("path", x, y), Cl("edge", y, z_)),
+        rule(H("shortcut", x, z_), Cl("path", x, z_), Cl("bridge", x, z_)),
+        rule(H("zseen", x), Cl("shortcut", x, _))]))
     P.append(Program("join_repeat_second", [R("foo", I, I), R("bar", I, I), R("r", I, I), R("r2", I, I)], [
         rule(H("r", x, y), Cl("foo", x, y), Cl("bar", y, y)),
         rule(H("r2", x, y), Cl("bar", y, y), Cl("foo", x, y)),
@@ -402,6 +408,14 @@ def c08_curated():
         rule(H("h", a, c), MacroCall("hop3", [a, b]), MacroCall("hop3", [b, c])),
         rule(H("h", a, V("x")), Cl("g", a, V("x")), MacroCall("hop3", [a, b]), MacroCall("hop3", [b, V("x")]), MacroCall("hop3", [V("x"), a]))],
         macros=[small, hop3]))
+    # a macro-local bound only through a nested invocation and used only in a condition; the outer macro twice in
+    # one rule, and once next to a call-site variable of the same spelling
+    step = MacroDef("step", [("a", "ident"), ("b", "ident")], [Cl("e", V("a"), V("b"))])
+    big = MacroDef("has_big_succ", [("q", "ident")], [MacroCall("step", [V("q"), tt]), If(Bin(">=", tt, C(1)))])
+    P.append(Program("macro_nested_local_cond", [R("e", I, I), R("pair", I, I), R("cap", I), R("cap2", I, I)], [
+        rule(H("pair", x, y), MacroCall("has_big_succ", [x]), MacroCall("has_big_succ", [y])),
+        rule(H("cap", x), Cl("e", tt, x), MacroCall("has_big_succ", [x]), If(Bin("==", tt, C(0)))),
+        rule(H("cap2", x, tt), MacroCall("has_big_succ", [x]), Cl("e", x, tt))], macros=[step, big]))
     # call-site variables spelled like gensym outputs / macro-local names
     loc = MacroDef("loc", [("a", "ident")], [Cl("e", V("a"), V("x_")), Cl("e", V("x_"), V("x__")), Cl("g", V("x__"), _)])
     P.append(Program("macro_name_clash", [R("e", I, I), R("g", I, I), R("r", I, I), R("r2", I, I)], [
@@ -459,7 +473,7 @@ def c06_variants(seed, per_base=6, bases=None):
     import itertools as _it
     rng = random.Random(seed)
     base = [p for p in c01_curated() if p.name in (bases or ("tc", "same_gen", "mutual3", "three_dyn", "join_cond2", "facts_multihead", "two_strata", "empty_rel",
-                                                              "binder_before_join", "binder_first_clause", "join_repeat_second", "consts_repeats"))]
+                                                              "binder_before_join", "binder_first_clause", "join_repeat_second", "consts_repeats", "multihead_side"))]
     out = []
     adversarial = ["tuple", "before", "res", "timeout", "val", "row", "matching", "changed", "total", "delta", "rel_ind", "selection_tuple", "key", "v", "i"]
     for p in base:
